@@ -17,6 +17,7 @@ import (
 
 	"github.com/btcsuite/btcd/btcec/v2"
 	"github.com/btcsuite/btcd/btcec/v2/schnorr"
+	"github.com/btcsuite/btcd/btcec/v2/schnorr/musig2"
 	"github.com/dominant-strategies/go-quai/common"
 	"github.com/dominant-strategies/go-quai/core/rawdb"
 	"github.com/dominant-strategies/go-quai/core/state"
@@ -476,4 +477,92 @@ func (n *VNode) VSpentAndTrimmed(blk *types.WorkObject) []string {
 		}
 	}
 	return out
+}
+
+// VQiTxMulti builds a Qi transaction whose inputs are owned by different keys and signs it with the
+// MuSig2 aggregate of signKeys (in input order, unsorted — as ProcessQiTx aggregates the input keys).
+func VQiTxMulti(chainID *big.Int, loc common.Location, ins []VQiIn, outs []VQiOut, data []byte, signKeys []*VKey) *types.Transaction {
+	unsigned := VQiTx(chainID, loc, ins, outs, data, nil)
+	if len(signKeys) == 1 {
+		return VQiTx(chainID, loc, ins, outs, data, signKeys[0])
+	}
+	digest := types.NewSigner(chainID, loc).Hash(unsigned)
+	var pubs []*btcec.PublicKey
+	for _, k := range signKeys {
+		pubs = append(pubs, k.Btc.PubKey())
+	}
+	var sessions []*musig2.Session
+	for _, k := range signKeys {
+		ctx, err := musig2.NewContext(k.Btc, false, musig2.WithKnownSigners(pubs))
+		if err != nil {
+			panic("harness: musig2 context: " + err.Error())
+		}
+		s, err := ctx.NewSession()
+		if err != nil {
+			panic("harness: musig2 session: " + err.Error())
+		}
+		sessions = append(sessions, s)
+	}
+	for i, s := range sessions {
+		for j, o := range sessions {
+			if i != j {
+				if _, err := s.RegisterPubNonce(o.PublicNonce()); err != nil {
+					panic("harness: musig2 nonce: " + err.Error())
+				}
+			}
+		}
+	}
+	var parts []*musig2.PartialSignature
+	for _, s := range sessions {
+		p, err := s.Sign(digest)
+		if err != nil {
+			panic("harness: musig2 sign: " + err.Error())
+		}
+		parts = append(parts, p)
+	}
+	for j := 1; j < len(parts); j++ {
+		if _, err := sessions[0].CombineSig(parts[j]); err != nil {
+			panic("harness: musig2 combine: " + err.Error())
+		}
+	}
+	sig := sessions[0].FinalSig()
+	inner := &types.QiTx{ChainID: chainID, Data: data, Signature: sig}
+	for _, in := range ins {
+		inner.TxIn = append(inner.TxIn, types.TxIn{PreviousOutPoint: types.OutPoint{TxHash: in.Hash, Index: in.Index}, PubKey: in.Key.Pub})
+	}
+	for _, o := range outs {
+		inner.TxOut = append(inner.TxOut, types.TxOut{Denomination: o.Denom, Address: o.Addr.Bytes(), Lock: big.NewInt(0)})
+	}
+	return types.NewTx(inner)
+}
+
+// VQiEnv bundles what ProcessQiTx needs besides the transaction.
+type VQiEnv struct {
+	Chain  *HeaderChain
+	Header *types.WorkObject
+	Signer types.Signer
+	Loc    common.Location
+	Scale  float64
+}
+
+// VProcessQi calls the real ProcessQiTx.
+func VProcessQi(env *VQiEnv, tx *types.Transaction, checkSig, first bool, batch ethdb.Batch, db ethdb.Reader, gp *types.GasPool, usedGas *uint64, etxR, etxP *uint64, ucd *UtxosCreatedDeleted, added, removed *big.Int, index bool) (*big.Int, []*types.ExternalTx, error) {
+	fee, etxs, _, err, _ := ProcessQiTx(tx, env.Chain, checkSig, first, env.Header, batch, db, gp, usedGas, env.Signer, env.Loc, *env.Chain.Config().ChainID, env.Scale, etxR, etxP, ucd, added, removed, index)
+	return fee, etxs, err
+}
+
+// VPubToAddr: 20-byte address of an uncompressed public key (as ProcessQiTx derives it).
+func VPubToAddr(pub []byte) []byte {
+	if len(pub) < 2 {
+		return nil
+	}
+	return crypto.PubkeyBytesToAddress(pub, VZoneLoc).Bytes()
+}
+
+// VQiRetag returns the same Qi transaction (inputs, outputs, data, signature) under another chain id.
+func VQiRetag(tx *types.Transaction, chainID *big.Int) *types.Transaction {
+	inner := &types.QiTx{ChainID: chainID, Data: tx.Data(), Signature: tx.GetSchnorrSignature()}
+	inner.TxIn = append(inner.TxIn, tx.TxIn()...)
+	inner.TxOut = append(inner.TxOut, tx.TxOut()...)
+	return types.NewTx(inner)
 }
